@@ -66,13 +66,25 @@ def r1(ctx):
     R = "C06.R1"
     m = ctx.repo.module(CRC)
     expr = m.get_const_expr("_CRC_TABLE")
-    ctx.require(isinstance(expr, (ast.List, ast.Tuple)), f"{m.relpath}: _CRC_TABLE is not a literal list")
     ref = gf2.reference_table(0xA001)
-    if len(expr.elts) != 256:
-        ctx.violation(R, "_CRC_TABLE:length", m, expr, "256 entries", str(len(expr.elts)))
-    for i, e in enumerate(expr.elts[:256]):
-        v = ctx.repo.try_fold(m, e)
-        ctx.check(v == ref[i], R, f"_CRC_TABLE[0x{i:02X}]", m, e, f"0x{ref[i]:04X} (generated from polynomial 0xA001)", f"0x{v:04X}" if isinstance(v, int) else repr(v))
+    if isinstance(expr, (ast.List, ast.Tuple)):
+        values = [ctx.repo.try_fold(m, e) for e in expr.elts]
+        nodes = list(expr.elts)
+    else:
+        # a table computed at import time (pure integer code over 0..255): evaluated with the checker's interpreter
+        from ..minieval import Mini, Unsupported
+
+        try:
+            values = Mini(ctx.repo, m).ev(expr, {})
+        except Unsupported as ex:
+            raise AnalysisError(f"{m.relpath}: _CRC_TABLE is neither a literal table nor an evaluable table expression: {ex}")
+        ctx.require(isinstance(values, (list, tuple)), f"{m.relpath}: _CRC_TABLE does not evaluate to a sequence")
+        values = list(values)
+        nodes = [expr] * len(values)
+    if len(values) != 256:
+        ctx.violation(R, "_CRC_TABLE:length", m, expr, "256 entries", str(len(values)))
+    for i, v in enumerate(values[:256]):
+        ctx.check(v == ref[i], R, f"_CRC_TABLE[0x{i:02X}]", m, nodes[i], f"0x{ref[i]:04X} (generated from polynomial 0xA001)", f"0x{v:04X}" if isinstance(v, int) else repr(v))
 
 
 def _calc_parts(ctx):
@@ -135,7 +147,7 @@ def r2(ctx):
     hi = all(got[k] == gf2.ZERO for k in range(16, gf2.WIDTH))
     ctx.check(hi, R, "calculate:step:stays-16-bit", m, loop, "the register never exceeds 16 bits", "upper bits can become non-zero")
     kw = {k.arg: ctx.repo.try_fold(m, k.value) if not (isinstance(k.value, ast.Attribute) and dotted(k.value) == "self.checksum_length") else ctx.repo.try_fold(m, ci.attrs.get("checksum_length")) for k in rv.keywords}
-    pos = [ctx.repo.try_fold(m, a) for a in rv.args]
+    pos = [ctx.repo.try_fold(m, a) if dotted(a) != "self.checksum_length" else ctx.repo.try_fold(m, ci.attrs.get("checksum_length")) for a in rv.args]
     length = kw.get("length", pos[0] if pos else None)
     order = kw.get("byteorder", pos[1] if len(pos) > 1 else "big")
     ctx.check(length == 2 and order == "big", R, "calculate:output", m, rv, "to_bytes(length=2, byteorder='big'): high byte first", f"length={length!r} byteorder={order!r}")
@@ -159,7 +171,7 @@ def r3(ctx):
     buf, chk = f.params[1], f.params[2]
     rets = [n for n in f.cfg.nodes if n.kind == "stmt" and isinstance(n.ast, ast.Return)]
     ok = len(rets) == 1
-    txt = norm_text(rets[0].ast.value) if ok and rets[0].ast.value is not None else ""
+    txt = f.expand_text(rets[0].ast.value, rets[0]) if ok and rets[0].ast.value is not None else ""
     ok = ok and txt in (f"self.calculate({buf}) == {chk}", f"{chk} == self.calculate({buf})", f"bytes({chk}) == self.calculate({buf})", f"self.calculate({buf}) == bytes({chk})")
     ctx.check(ok, R, "validate:compares", m, f.node, f"returns self.calculate({buf}) == {chk}", txt or f"{len(rets)} return statements")
     # anything before the return may only raise (length check), never return True
@@ -197,6 +209,15 @@ def _inline_helper(repo, m, e):
 def _span(ctx, hm, f, node, expr, base_pred, size):
     """(lo, hi, text) of a checksum span expression when it is a constant-position slice of the header buffer; else (None, None, text)."""
     e = _inline_helper(ctx.repo, hm, expr)
+    # slice bounds held in locals (e.g. `end = _STRUCT.size`) read as what they stand for
+    if isinstance(e, ast.Subscript) and isinstance(e.slice, ast.Slice) and node is not None and f is not None:
+        for fld in ("lower", "upper"):
+            b = getattr(e.slice, fld)
+            if b is not None and ctx.repo.try_fold(hm, b) is None:
+                try:
+                    setattr(e.slice, fld, f.expand(b, node))
+                except Exception:
+                    pass
     # unwrap bytes(...)
     while isinstance(e, ast.Call) and dotted(e.func) in ("bytes", "bytearray", "memoryview") and len(e.args) == 1:
         e = e.args[0]
